@@ -18,7 +18,7 @@ type asm struct {
 
 func newAsm() *asm { return &asm{fix: map[int]int{}, labels: map[int]int{}} }
 
-func (a *asm) op(b ...byte) { a.code = append(a.code, b...) }
+func (a *asm) op(b ...byte)  { a.code = append(a.code, b...) }
 func (a *asm) newLabel() int { a.nlab++; return a.nlab }
 func (a *asm) pushLabel(l int) {
 	a.code = append(a.code, 0x61, 0, 0)
@@ -680,7 +680,7 @@ func genCase(r *Rng, wild bool) tcase {
 	case 1:
 		t.gas = uint64(r.Intn(60000))
 	case 2:
-		t.gas = 1 << 40
+		t.gas = 1 << 32
 	default:
 		t.gas = uint64(100000 + r.Intn(3000000))
 	}
@@ -714,7 +714,7 @@ func gen(r *Rng, tier string, emit func(Sx)) {
 		t := genCase(r.Fork(), false)
 		t.kind, t.fork = 0, 0
 		t.pre[1].code = tmplRecurse(k)
-		t.to, t.value, t.gas = t.pre[1].addr, new(big.Int), 1<<36
+		t.to, t.value, t.gas = t.pre[1].addr, new(big.Int), 1<<34
 		emit(t.sx())
 		if tier != "thorough" {
 			break
